@@ -28,6 +28,9 @@ func runC20(c *core.Ctx) {
 	c.RuleDoc("R20.6", "no mutable package state")
 	c.RuleDoc("R20.8", "error-type comparisons assert the error's own dynamic type (no errors.As)")
 	c.RuleDoc("R20.9", "goroutines started in a loop are awaited after the loop")
+	c.RuleDoc("R20.11", "the suite never sorts a by-name listing before asserting on it")
+	c.RuleDoc("R20.13", "a subset assertion between two observed listings is made in both directions")
+	c.RuleDoc("R20.12", "errors.Is matches the observed error against the expected one, never both ways")
 	c.RuleDoc("R20.10", "an operation's error that is asserted on some paths of a subtest is asserted on all")
 	c.RuleDoc("R20.7", "parallel subtest closures capture no loop variable shared between iterations")
 	for _, p := range c.Progs {
@@ -46,6 +49,9 @@ func runC20(c *core.Ctx) {
 		r20LoopCapture(c, p)
 		r20ErrType(c, p)
 		r20Concurrent(c, p)
+		r20NoNormalisedObservation(c, p)
+		r20ErrorsIsDirection(c, p)
+		r20SubsetBothWays(c, p)
 		r20ErrorAssertedOnEveryPath(c, p)
 	}
 	c.Floor("R20.1", 30)
@@ -58,6 +64,9 @@ func runC20(c *core.Ctx) {
 	c.Floor("R20.8", 2)
 	c.Floor("R20.9", 1)
 	c.Floor("R20.10", 100)
+	c.Floor("R20.11", 2)
+	c.Floor("R20.12", 3)
+	c.Floor("R20.13", 1)
 }
 
 func r20Registered(c *core.Ctx, p *load.Program, pk *ssa.Package) {
@@ -661,4 +670,279 @@ func posOf(p *load.Program, ins ssa.Instruction) string {
 		return "-"
 	}
 	return p.Pos(ins.Pos())
+}
+
+// r20NoNormalisedObservation (R20.11): the suite asserts on what the file system returned, not on a normalised copy.
+// A listing obtained by name (hackpadfs.ReadDir, which must come back sorted) is never sorted by the suite before it
+// is compared; listings read from a handle (ReadDirFile, unordered by contract) may be.
+func r20NoNormalisedObservation(c *core.Ctx, p *load.Program) {
+	n := 0
+	for _, fn := range pkgFuncs(p, "fstest") {
+		ord := ordinals{}
+		ssax.Instrs(fn, func(ins ssa.Instruction) {
+			cl, ok := ins.(*ssa.Call)
+			if !ok {
+				return
+			}
+			callee := ssax.StaticCallee(cl)
+			if callee == nil || callee.Pkg == nil || callee.Pkg.Pkg.Path() != "sort" && callee.Pkg.Pkg.Path() != "slices" || len(cl.Call.Args) == 0 {
+				return
+			}
+			if !strings.HasPrefix(callee.Name(), "Sort") && !strings.HasPrefix(callee.Name(), "Slice") && callee.Name() != "Strings" {
+				return
+			}
+			n++
+			key := fname(fn) + "|" + ord.next("sorted-value-is-not-a-by-name-listing")
+			byName := originIs(cl.Call.Args[0], func(v ssa.Value) bool {
+				src, ok := v.(*ssa.Call)
+				if !ok {
+					return false
+				}
+				if sc := ssax.StaticCallee(src); sc != nil && sc.Name() == "ReadDir" && pkgPathOf(sc) == mod {
+					return true
+				}
+				return src.Call.IsInvoke() && src.Call.Method.Name() == "ReadDir" && len(src.Call.Args) == 1 && isStr(src.Call.Args[0].Type())
+			})
+			c.Check(!byName, "R20.11", key, p.Pos(cl.Pos()), "the sorted value is not a listing obtained by name",
+				fmt.Sprintf("%s sorts a listing obtained by name (ReadDir) before asserting on it: the order the file system returned is no longer observed, so a file system whose by-name listing is complete but unsorted passes — the verdict must depend on the behaviour of the file system under test", fname(fn)))
+		})
+	}
+	if n == 0 {
+		c.Hard("anchor: sort calls in fstest")
+	}
+}
+
+// r20ErrorsIsDirection (R20.12): errors.Is is not symmetric (syscall.Errno.Is: errors.Is(ENOTEMPTY, fs.ErrExist) is true,
+// the converse is false). Inside one function of the suite the same two values are never matched in both directions,
+// and a helper with the parameters (expected, actual error) matches errors.Is(actual, expected).
+func r20ErrorsIsDirection(c *core.Ctx, p *load.Program) {
+	n := 0
+	var fns []*ssa.Function
+	fns = append(fns, pkgFuncs(p, "fstest")...)
+	fns = append(fns, pkgFuncs(p, "internal/assert")...)
+	for _, fn := range fns {
+		var calls []*ssa.Call
+		ssax.Instrs(fn, func(ins ssa.Instruction) {
+			if cl, ok := ins.(*ssa.Call); ok && ssax.CalleeIs(cl, "errors", "Is") && len(cl.Call.Args) == 2 {
+				calls = append(calls, cl)
+			}
+		})
+		if len(calls) == 0 {
+			continue
+		}
+		var errParams []*ssa.Parameter
+		for _, prm := range fn.Params {
+			if ssax.IsErrorType(prm.Type()) {
+				errParams = append(errParams, prm)
+			}
+		}
+		ord := ordinals{}
+		for _, cl := range calls {
+			n++
+			key := fname(fn) + "|" + ord.next("errors-is-direction")
+			bad := ""
+			for _, o := range calls {
+				if o != cl && o.Call.Args[0] == cl.Call.Args[1] && o.Call.Args[1] == cl.Call.Args[0] {
+					bad = "the same two errors are matched in both directions in this function"
+				}
+			}
+			if len(errParams) == 2 && cl.Call.Args[0] == ssa.Value(errParams[0]) && cl.Call.Args[1] == ssa.Value(errParams[1]) && strings.HasPrefix(strings.ToLower(errParams[0].Name()), "expect") {
+				bad = fmt.Sprintf("errors.Is(%s, %s) asks whether the expectation matches the observation", errParams[0].Name(), errParams[1].Name())
+			}
+			c.Check(bad == "", "R20.12", key, p.Pos(cl.Pos()), "the observed error is matched against the expected one, in one direction",
+				fmt.Sprintf("%s: %s — errors.Is is asymmetric for syscall.Errno (errors.Is(ENOTEMPTY, fs.ErrExist) is true), so a wrong error kind (ErrExist where ErrNotEmpty is required) is accepted", fname(fn), bad))
+		}
+	}
+	if n < 3 {
+		c.Hard("anchor: errors.Is calls in the suite (found %d)", n)
+	}
+}
+
+// originIs: some value v is copied from (through interfaces, tuples, local cells, captured variables, phis, re-slicing)
+// satisfies pred.
+func originIs(v ssa.Value, pred func(ssa.Value) bool) bool {
+	seen := map[ssa.Value]bool{}
+	var walk func(x ssa.Value, d int) bool
+	walk = func(x ssa.Value, d int) bool {
+		if x == nil || seen[x] || d > 16 {
+			return false
+		}
+		seen[x] = true
+		if pred(x) {
+			return true
+		}
+		cell := func(a *ssa.Alloc) bool {
+			stores, _ := ssax.CellStores(a)
+			for _, st := range stores {
+				if walk(st.Val, d+1) {
+					return true
+				}
+			}
+			return false
+		}
+		switch y := x.(type) {
+		case *ssa.MakeInterface:
+			return walk(y.X, d+1)
+		case *ssa.ChangeInterface:
+			return walk(y.X, d+1)
+		case *ssa.ChangeType:
+			return walk(y.X, d+1)
+		case *ssa.Convert:
+			return walk(y.X, d+1)
+		case *ssa.Slice:
+			return walk(y.X, d+1)
+		case *ssa.Extract:
+			return walk(y.Tuple, d+1)
+		case *ssa.Phi:
+			for _, e := range y.Edges {
+				if walk(e, d+1) {
+					return true
+				}
+			}
+		case *ssa.UnOp:
+			if y.Op != token.MUL {
+				return false
+			}
+			if a, ok := y.X.(*ssa.Alloc); ok {
+				return cell(a)
+			}
+			if fv, ok := y.X.(*ssa.FreeVar); ok {
+				if a, ok := ssax.ResolveFreeVar(fv).(*ssa.Alloc); ok {
+					return cell(a)
+				}
+			}
+		}
+		return false
+	}
+	return walk(v, 0)
+}
+
+// r20SubsetBothWays (R20.13): a subset assertion whose SUB side is itself an observation of the file system under
+// test (pages of a directory handle) ignores multiplicity — [bar, bar] is a subset of [bar, foo]. Such an assertion
+// is paired, in the same function, with the converse one (super ⊆ sub) or with an assertion that the observed entries
+// differ from each other (a directory may hold more entries than the pages cover).
+func r20SubsetBothWays(c *core.Ctx, p *load.Program) {
+	observed := func(v ssa.Value) bool {
+		seenCalls := map[ssa.Value]bool{}
+		var obs func(x ssa.Value, d int) bool
+		obs = func(x ssa.Value, d int) bool {
+			return d < 6 && originIs(x, func(y ssa.Value) bool {
+				cl, ok := y.(*ssa.Call)
+				if !ok || seenCalls[y] {
+					return false
+				}
+				seenCalls[y] = true
+				if sc := ssax.StaticCallee(cl); sc != nil {
+					if pkgPathOf(sc) == mod && strings.HasPrefix(sc.Name(), "ReadDir") {
+						return true
+					}
+					if p.InModule(sc) || (sc.Pkg == nil && cl.Call.Value != nil) {
+						for _, a := range cl.Call.Args {
+							if obs(a, d+1) {
+								return true
+							}
+						}
+					}
+				}
+				if b, isB := cl.Call.Value.(*ssa.Builtin); isB && b.Name() == "append" {
+					for _, a := range cl.Call.Args {
+						if obs(a, d+1) {
+							return true
+						}
+					}
+				}
+				return cl.Call.IsInvoke() && cl.Call.Method.Name() == "ReadDir"
+			})
+		}
+		return obs(v, 0)
+	}
+	isSubset := func(cl *ssa.Call) (sub, super ssa.Value, ok bool) {
+		sc := ssax.StaticCallee(cl)
+		if sc == nil || !strings.Contains(sc.Name(), "Subset") || !p.InModule(sc) {
+			return nil, nil, false
+		}
+		a := cl.Call.Args
+		if len(a) < 3 {
+			return nil, nil, false
+		}
+		return a[len(a)-2], a[len(a)-1], true
+	}
+	n := 0
+	for _, fn := range pkgFuncs(p, "fstest") {
+		var calls []*ssa.Call
+		ssax.Instrs(fn, func(ins ssa.Instruction) {
+			if cl, ok := ins.(*ssa.Call); ok {
+				if _, _, is := isSubset(cl); is {
+					calls = append(calls, cl)
+				}
+			}
+		})
+		ord := ordinals{}
+		for _, cl := range calls {
+			sub, super, _ := isSubset(cl)
+			if !observed(sub) || !observed(super) {
+				continue
+			}
+			n++
+			key := fname(fn) + "|" + ord.next("observed-subset-has-converse")
+			paired := false
+			same := func(a, b ssa.Value) bool {
+				if a == b {
+					return true
+				}
+				ca, okA := a.(*ssa.Call)
+				cb, okB := b.(*ssa.Call)
+				if okA && okB && ssax.StaticCallee(ca) == ssax.StaticCallee(cb) && len(ca.Call.Args) == len(cb.Call.Args) {
+					for i := range ca.Call.Args {
+						if !sameVar(ca.Call.Args[i], cb.Call.Args[i]) && ca.Call.Args[i] != cb.Call.Args[i] {
+							return false
+						}
+					}
+					return true
+				}
+				return sameVar(a, b)
+			}
+			for _, o := range calls {
+				if o == cl {
+					continue
+				}
+				osub, osuper, _ := isSubset(o)
+				if same(osub, super) && same(osuper, sub) {
+					paired = true
+				}
+			}
+			// or: the elements of an observed listing are asserted to be different from each other
+			ssax.Instrs(fn, func(ins ssa.Instruction) {
+				ne, ok := ins.(*ssa.Call)
+				if !ok {
+					return
+				}
+				if sc := ssax.StaticCallee(ne); sc == nil || sc.Name() != "NotEqual" || !p.InModule(sc) || len(ne.Call.Args) < 3 {
+					return
+				}
+				elemName := func(v ssa.Value) bool {
+					return originIs(v, func(y ssa.Value) bool {
+						nc, ok := y.(*ssa.Call)
+						if !ok || !nc.Call.IsInvoke() || nc.Call.Method.Name() != "Name" {
+							return false
+						}
+						ld, ok := nc.Call.Value.(*ssa.UnOp)
+						if !ok {
+							return false
+						}
+						ia, ok := ld.X.(*ssa.IndexAddr)
+						return ok && observed(ia.X)
+					})
+				}
+				if elemName(ne.Call.Args[1]) && elemName(ne.Call.Args[2]) && ne.Call.Args[1] != ne.Call.Args[2] {
+					paired = true
+				}
+			})
+			c.Check(paired, "R20.13", key, p.Pos(cl.Pos()), "the converse subset assertion is made too, or the observed entries are asserted to differ",
+				fmt.Sprintf("%s asserts that one observed listing is a subset of another without the converse: a subset test ignores multiplicity, so pages that repeat an entry ([bar, bar]) pass as a subset of the full listing [bar, foo] — a directory handle whose ReadDir(n) never advances is accepted", fname(fn)))
+		}
+	}
+	if n == 0 {
+		c.Hard("anchor: subset assertions between two observed listings in fstest")
+	}
 }
